@@ -107,6 +107,14 @@ private theorem step_ok {strict : Bool} {P Q : Nat → Prop} (H : Hyp strict P Q
       have hi' : GInv P { s with opened := s.opened + 1 } h :=
         ⟨hi.sent_eq, hi.sent_min, hi.surf_le, hi.largest_ok, hi.incoming_ok⟩
       exact ⟨by simp [valid, okObs], by simpa [pushAll, Hist.push] using hi', by simp [outcomes, arrivals]⟩
+  | resolve id =>
+    by_cases hc : id ∈ s.ongoing
+    · have e : step s (.resolve id) = (s, [.served id]) := by simp [step, hc]
+      rw [e]
+      exact ⟨by simp [valid, okObs], by simpa [pushAll, Hist.push] using hi, by simp [outcomes, arrivals]⟩
+    · have e : step s (.resolve id) = (s, []) := by simp [step, hc]
+      rw [e]
+      exact ⟨by simp [valid], by simpa [pushAll] using hi, by simp [outcomes, arrivals]⟩
 
 private theorem run_ok {strict : Bool} {P Q : Nat → Prop} (H : Hyp strict P Q) (evs : List Ev) :
     ∀ (s : State) (h : Hist), GInv P s h → (∀ e ∈ evs, evOk P Q e) →
@@ -242,6 +250,89 @@ theorem C08_shutdown_id (L n : Nat) (h4 : L % 4 = 0) (hL : L < 2^62) (hn : n < 2
   simp only [index, Nat.reducePow, Nat.reduceSub] at a2 b2
   exact ⟨sat_arith L n _ _ h4 hk a1 a2, sat_arith0 n _ b1 b2⟩
 
+/-! ### `accept` says "no more requests" only when drained
+
+`poll_accept_request_stream_internal` answers `Ready(Ok(None))` in two places, both behind
+`poll_requests_completion(cx).is_ready()` (= the request-end channel is emptied into
+`ongoing_streams`, then "is `ongoing_streams` empty?"): when the transport has no stream and a
+GOAWAY of the peer has been processed (C09's case), and — after a *local* `shutdown` — right after
+refusing a stream at or above the identifier sent.  `H3.Goaway.acceptLoop` has both. -/
+
+/-- **`None` only when drained, state by state.**  For every connection state `s` and every queue
+    `q` of streams waiting in the transport: one run of the accept loop answers `None` *exactly*
+    when no request is ongoing at that moment (`ongoing_streams` is empty) and either the first
+    stream waiting is one the filter refuses (local shutdown: its ID is at or above the
+    identifier sent) or nothing waits and a GOAWAY of the peer has been processed.  Such a run
+    shows no request to the application and leaves `ongoing_streams` empty.  In particular a
+    refusal while a request shown earlier is still in progress never ends `accept`. -/
+theorem C08_accept_none_only_when_drained (s : State) (q : List Nat) :
+    (Obs.acceptNone ∈ (acceptLoop s q).2 ↔
+      s.ongoing = [] ∧ ((∃ id rest, q = id :: rest ∧ rejects s.sentClosing id = true) ∨
+                        (q = [] ∧ s.recvClosing.isSome = true))) ∧
+    (Obs.acceptNone ∈ (acceptLoop s q).2 →
+      surfacedIn (acceptLoop s q).2 = [] ∧ (acceptLoop s q).1.ongoing = []) := by
+  refine ⟨acceptLoop_none_iff q s, ?_⟩
+  intro hn
+  have h1 := acceptLoop_none_quiet q s hn
+  have h2 := ((acceptLoop_none_iff q s).mp hn).1
+  refine ⟨h1, ?_⟩
+  rw [acceptLoop_ongoing, h1, h2]; rfl
+
+-- a refusal with request 0 still in progress does not end `accept`; with nothing in progress it does
+example : (acceptLoop { sentClosing := some 4, largest := some 0, ongoing := [0] } [4, 8]).2 =
+      [.rejected 4, .rejected 8, .acceptPending] ∧
+    (acceptLoop { sentClosing := some 4, largest := some 0, ongoing := [] } [4, 8]).2 =
+      [.rejected 4, .acceptNone] ∧
+    -- an acceptable stream behind a refused one is still served while a request is in progress
+    (acceptLoop { sentClosing := some 12, largest := some 0, ongoing := [0] } [12, 4]).2 =
+      [.rejected 12, .surfaced 4] := by decide
+
+/-- **… and over whole histories.**  In every history (any interleaving of arrivals, `accept`
+    polls, `shutdown n`, completions, GOAWAYs of the peer), with *in progress* read off the history
+    alone (`H3.Spec.Goaway.inProgress`: shown to the application by an earlier step and no
+    `complete` for it since): `ongoing_streams` is exactly the set of requests in progress, and a
+    step that shows `None` is an `accept` made when no request is in progress (none is in
+    progress after it either). -/
+theorem C08_accept_none_history (evs : List Ev) :
+    inProgress (trace {} evs) = (run {} evs).1.ongoing ∧
+    (∀ pre st post, trace {} evs = pre ++ st :: post → Obs.acceptNone ∈ st.2 →
+      st.1 = .accept ∧ inProgress pre = [] ∧ inProgress (pre ++ [st]) = []) := by
+  obtain ⟨h1, h2⟩ := trace_progress evs {} [] rfl
+  refine ⟨by simpa using h1, ?_⟩
+  intro pre st post h hn
+  simpa using h2 pre st post h hn
+
+-- local shutdown: stream 4 is refused while request 0 is in progress (`accept` keeps waiting);
+-- once request 0 has completed the next refusal ends `accept`
+example : trace {} [.arrive 0, .accept, .shutdown 0, .arrive 4, .accept, .complete 0, .arrive 8, .accept] =
+    [(.arrive 0, []), (.accept, [.surfaced 0]), (.shutdown 0, [.goaway 4, .shutdownOk]), (.arrive 4, []),
+     (.accept, [.rejected 4, .acceptPending]), (.complete 0, []), (.arrive 8, []),
+     (.accept, [.rejected 8, .acceptNone])] := by decide
+example : inProgress (trace {} [.arrive 0, .accept, .shutdown 0, .arrive 4, .accept]) = [0] ∧
+    inProgress (trace {} [.arrive 0, .accept, .shutdown 0, .arrive 4, .accept, .complete 0, .arrive 8]) = [] := by
+  decide
+
+/-- **Every request below the line is still served.**  After every history — whatever GOAWAYs
+    were sent in it (`shutdown n` at any moment, the last one of `accept`) or received from the
+    peer, and also after `accept` has answered `None` — `resolve_request` on a request that is in
+    progress (shown to the application earlier, not completed: `inProgress`) returns the request
+    and leaves the connection as it was.  (Which arrivals are shown is `C08_server_line`: exactly
+    those below the last identifier sent; the oracle's clause `notServed ⇒ false` is part of
+    `valid` there.) -/
+theorem C08_surfaced_request_is_served (evs : List Ev) (id : Nat) (h : id ∈ inProgress (trace {} evs)) :
+    step (run {} evs).1 (.resolve id) = ((run {} evs).1, [.served id]) ∧
+    okObs true (pushAll {} (run {} evs).2) (.served id) = true := by
+  rw [(C08_accept_none_history evs).1] at h
+  exact ⟨by simp [step, h], rfl⟩
+
+-- request 0 is served after shutdown(0) has announced 4, after the peer's GOAWAY, and request 4 (below the
+-- line of shutdown(1)) is served after `accept` has refused request 8
+example : (run {} [.arrive 0, .accept, .shutdown 0, .recvGoaway 0, .accept, .resolve 0]).2 =
+      [.surfaced 0, .goaway 4, .shutdownOk, .acceptPending, .served 0] ∧
+    (run {} [.arrive 0, .accept, .shutdown 1, .arrive 4, .arrive 8, .accept, .accept, .resolve 4, .resolve 8]).2 =
+      [.surfaced 0, .goaway 8, .shutdownOk, .surfaced 4, .rejected 8, .acceptPending, .served 4] ∧
+    valid true {} [.surfaced 0, .goaway 4, .notServed 0] = false := by decide
+
 /-! ### client -/
 
 /-- events of a client history; identifiers come off the wire as 62-bit integers
@@ -306,6 +397,7 @@ private theorem client_run (evs : List Ev) : ∀ (s : State) (ps buf : List Nat)
     | accept => exact absurd he (by simp [ClientEv])
     | shutdown _ => exact absurd he (by simp [ClientEv])
     | complete _ => exact absurd he (by simp [ClientEv])
+    | resolve _ => exact absurd he (by simp [ClientEv])
 
 /-- **The client's rules.**  For every sequence of GOAWAY identifiers received, driver polls and
     `send_request` calls, with `c` the oracle's verdict on the identifiers the driver has been
